@@ -49,10 +49,10 @@ func TestVerifC17SM4(t *testing.T) {
 	}
 	rounds := hk.N(4, 12)
 	var maxInflight, overlapped, total int64
-	for _, asm := range paths() {
+	for _, asm := range zvPaths() {
 		asm := asm
-		withAsm(asm, func() {
-			pn := pathName(asm)
+		zvWithAsm(asm, func() {
+			pn := zvPathName(asm)
 			for round := 0; round < rounds; round++ {
 				procs := []int{16, 4, 16, 2}[round%4]
 				old := runtime.GOMAXPROCS(procs)
@@ -72,7 +72,7 @@ func TestVerifC17SM4(t *testing.T) {
 					tagSize = 13
 				}
 				nonceV = rng.Bytes(nonceLen)
-				aead, _ = newAEADFromBlock(blk, nonceLen, tagSize)
+				aead, _ = zvNewAEADFromBlock(blk, nonceLen, tagSize)
 				g := ref.NewGCM(key)
 				gNonce := protect(nonceV)
 				// few distinct messages so that the same buffers are used concurrently
@@ -83,7 +83,7 @@ func TestVerifC17SM4(t *testing.T) {
 					gPt, gAad, gCt := protect(pt), protect(aadV), protect(sealed)
 					ops = append(ops, &c17op{"seal", gPt, gAad, gNonce, sealed, true, 0})
 					ops = append(ops, &c17op{"open", gCt, gAad, gNonce, pt, true, 0})
-					ops = append(ops, &c17op{"open-forged", protect(flipBit(sealed, rng.Intn(len(sealed)*8))), gAad, gNonce, nil, false, 0})
+					ops = append(ops, &c17op{"open-forged", protect(zvFlipBit(sealed, rng.Intn(len(sealed)*8))), gAad, gNonce, nil, false, 0})
 				}
 				for i := 0; i < 6; i++ {
 					b := rng.Bytes(16)
@@ -106,12 +106,16 @@ func TestVerifC17SM4(t *testing.T) {
 					ops = append(ops, &c17op{kind: "seal", in: protect(append(make([]byte, off), pt...)), aad: gAad, nonce: gNonce, want: sealed, wantOK: true, off: off})
 					ops = append(ops, &c17op{kind: "open", in: protect(append(make([]byte, off), sealed...)), aad: gAad, nonce: gNonce, want: pt, wantOK: true, off: off})
 				}
-				var before [2][32]uint32
-				if c, ok := blk.(*sm4CipherAsm); ok {
-					before[0], before[1] = c.enc, c.dec
-				} else if c, ok := blk.(*sm4Cipher); ok {
-					before[0], before[1] = c.enc, c.dec
+				// the round keys inside the object, wherever its fields keep them (found by reflection: a renamed or
+				// removed field means less to compare, never a monitor that does not build)
+				snapshotRK := func() string {
+					var all []byte
+					for _, b := range stepRoundKeys(blk) {
+						all = append(all, b...)
+					}
+					return string(all)
 				}
+				before := snapshotRK()
 				workers := []int{16, 64, 32}[round%3]
 				iters := hk.N(150, 600)
 				var wg sync.WaitGroup
@@ -194,12 +198,7 @@ func TestVerifC17SM4(t *testing.T) {
 						maxInflight = mx
 					}
 				}
-				var after [2][32]uint32
-				if c, ok := blk.(*sm4CipherAsm); ok {
-					after[0], after[1] = c.enc, c.dec
-				} else if c, ok := blk.(*sm4Cipher); ok {
-					after[0], after[1] = c.enc, c.dec
-				}
+				after := snapshotRK()
 				if before != after {
 					r.Violation("cipher-object-round-keys-changed:"+pn, hk.D{"round": round})
 				}
@@ -412,7 +411,7 @@ func TestVerifC17SM4(t *testing.T) {
 			}
 			// object lifetimes under concurrency: sibling AEADs are collected and finalized WHILE other
 			// goroutines use the Block and a surviving AEAD
-			lifetimeHistories(r, rng, pn, hk.N(4, 20), true, true, true)
+			zvLifetimeHistories(r, rng, pn, hk.N(4, 20), true, true, true)
 		})
 	}
 	r.Count("operations", total)
